@@ -87,6 +87,7 @@ func cmdG(args []string) {
 	maxdepth := fs.Int("maxdepth", 60, "recursion depth bound")
 	spurious := fs.Int("spurious", 0, "spurious condition wake-ups allowed per wait")
 	schedSteps := fs.Int("sched-steps", 400, "scheduling points per path")
+	realSync := fs.Bool("real-sync", false, "execute Go's sync.Mutex/RWMutex from source instead of treating them as no-ops")
 	preempt := fs.Int("preempt", -1, "preemption bound of the scheduler (-1 = unbounded)")
 	stubs := fs.String("stubs", "", "environment stub set: archive:<namelen>:<entries>")
 	cpuprof := fs.String("cpuprofile", "", "write a CPU profile")
@@ -145,6 +146,13 @@ func cmdG(args []string) {
 		x.Cfg.Spurious = *spurious
 		x.Cfg.SchedSteps = *schedSteps
 		x.Cfg.Preempt = *preempt
+		if *realSync {
+			for n := range x.Intrinsic {
+				if strings.HasPrefix(n, "(*sync.") {
+					delete(x.Intrinsic, n)
+				}
+			}
+		}
 		if strings.HasPrefix(*stubs, "archive:") {
 			var nl, ne int
 			fmt.Sscanf(*stubs, "archive:%d:%d", &nl, &ne)
